@@ -69,6 +69,7 @@ func emitSpecs(c *ctx, forLexing bool) []emitSpec {
 	// U+8000..U+FFFF (three-byte sequences with a lead byte of E8 and above), full-width forms
 	if !forLexing {
 		// code points of the surrogate block have no rune literal of their own
+		add("specials", "grammar specials;\nBOM = /\\xFEFF/\nARAB = /[\\xFE70-\\xFEFE]+/\nSEPS = /[\\x2028\\x2029\\x200B\\x200E\\x00AD]/\nNONCH = /\\xFFFE|\\xFFFF|\\x0085/\nstart = {BOM | ARAB | SEPS | NONCH | \"x\"};\n")
 		add("surrogates", "grammar sur;\nSUR = /a\\xD800b|[\\xDBFF-\\xDC01]+/\nLAST = /\\xDFFF\\xE000/\nREPL = /\\xFFFD+/\nstart = {SUR | LAST | REPL | \"x\"};\n")
 	}
 	if forLexing {
